@@ -31,6 +31,7 @@ import (
 	"github.com/zenon-network/go-zenon/protocol"
 	"github.com/zenon-network/go-zenon/verifier"
 	"github.com/zenon-network/go-zenon/vm"
+	"github.com/zenon-network/go-zenon/vm/constants"
 	"github.com/zenon-network/go-zenon/wallet"
 )
 
@@ -583,4 +584,60 @@ func CloneBatch(ds []*nom.DetailedMomentum) []*nom.DetailedMomentum {
 		out[i] = CloneDetailed(d)
 	}
 	return out
+}
+
+// ---------------------------------------------------------------------------------------------------------------------
+// consensus observations
+
+// SmallConsensus shrinks the election tick to 3 slots (30 s) with 1 random slot and the epoch to `epochTicks` ticks, so
+// that tick and epoch boundaries fall inside short chains. Must be called before any node is created in this process.
+func SmallConsensus(epochTicks int) {
+	constants.ConsensusConfig.NodeCount = 3
+	constants.ConsensusConfig.RandCount = 1
+	consensus.EpochDuration = time.Duration(epochTicks) * 30 * time.Second
+}
+
+// ConsensusDigest renders what the consensus module answers at the frontier: pillar weights, epoch statistics for every
+// epoch up to the frontier's, and the elected producer of every slot of the next `slots` slots.
+func (n *Node) ConsensusDigest(slots int) string {
+	var sb bytes.Buffer
+	pr := n.Cons.FrontierPillarReader()
+	w, err := pr.GetPillarWeights()
+	names := make([]string, 0, len(w))
+	for k := range w {
+		names = append(names, k)
+	}
+	sort.Strings(names)
+	fmt.Fprintf(&sb, "weights(err=%v):", err)
+	for _, k := range names {
+		fmt.Fprintf(&sb, "%s=%v,", k, w[k])
+	}
+	f := n.Frontier()
+	epoch := pr.EpochTicker().ToTick(*f.Timestamp)
+	for e := uint64(0); e <= epoch; e++ {
+		st, err := pr.EpochStats(e)
+		fmt.Fprintf(&sb, "|epoch%d(err=%v):", e, err != nil)
+		if st != nil {
+			ps := make([]string, 0)
+			for k := range st.Pillars {
+				ps = append(ps, k)
+			}
+			sort.Strings(ps)
+			fmt.Fprintf(&sb, "total=%v blocks=%d;", st.TotalWeight, st.TotalBlocks)
+			for _, k := range ps {
+				p := st.Pillars[k]
+				fmt.Fprintf(&sb, "%s:%d/%d/%v,", k, p.BlockNum, p.ExceptedBlockNum, p.Weight)
+			}
+		}
+	}
+	for i := 0; i < slots; i++ {
+		t := n.NextSlot(i)
+		p, err := n.Cons.GetMomentumProducer(t)
+		if err != nil || p == nil {
+			fmt.Fprintf(&sb, "|slot%d:err", i)
+		} else {
+			fmt.Fprintf(&sb, "|slot%d:%s", i, p.String()[:10])
+		}
+	}
+	return sb.String()
 }
